@@ -302,8 +302,8 @@ func (c *Ctx) arr2sl(contents *Term, n int64, es Sort) *Term {
 	at := atFun(c, es)
 	fn := "arr2sl_" + sortName(es)
 	c.sc.declareFun(fn, []Sort{ArrSort(SInt, es), SInt}, SSl)
-	c.sc.axiomOnce(fmt.Sprintf("(forall ((a %s) (n Int)) (! (=> (>= n 0) (= (slen (%s a n)) n)) :pattern ((%s a n))))", ArrSort(SInt, es), fn, fn))
-	c.sc.axiomOnce(fmt.Sprintf("(forall ((a %s) (n Int) (i Int)) (! (=> (and (<= 0 i) (< i n)) (= (%s (%s a n) i) (select a i))) :pattern ((%s (%s a n) i))))", ArrSort(SInt, es), at, fn, at, fn))
+	c.sc.axiomFor(fn, fmt.Sprintf("(forall ((a %s) (n Int)) (! (=> (>= n 0) (= (slen (%s a n)) n)) :pattern ((%s a n))))", ArrSort(SInt, es), fn, fn))
+	c.sc.axiomFor(fn, fmt.Sprintf("(forall ((a %s) (n Int) (i Int)) (! (=> (and (<= 0 i) (< i n)) (= (%s (%s a n) i) (select a i))) :pattern ((%s (%s a n) i))))", ArrSort(SInt, es), at, fn, at, fn))
 	return tApp(SSl, fn, contents, intLit(n))
 }
 
@@ -318,7 +318,7 @@ func (c *Ctx) copyInto(old, src *Term, n int64, es Sort) *Term {
 	fn := "copyinto_" + sortName(es)
 	as := ArrSort(SInt, es)
 	c.sc.declareFun(fn, []Sort{as, SSl, SInt}, as)
-	c.sc.axiomOnce(fmt.Sprintf("(forall ((a %s) (s Sl) (n Int) (i Int)) (! (= (select (%s a s n) i) (ite (and (<= 0 i) (< i n) (< i (slen s))) (%s s i) (select a i))) :pattern ((select (%s a s n) i))))", as, fn, at, fn))
+	c.sc.axiomFor(fn, fmt.Sprintf("(forall ((a %s) (s Sl) (n Int) (i Int)) (! (= (select (%s a s n) i) (ite (and (<= 0 i) (< i n) (< i (slen s))) (%s s i) (select a i))) :pattern ((select (%s a s n) i))))", as, fn, at, fn))
 	return tApp(as, fn, old, src, intLit(n))
 }
 
